@@ -27,6 +27,7 @@ type Env struct {
 	typeFn     *ssa.Function
 	callArgs   []Val
 	extraFr    *FrameSt
+	freeBinds  map[string]Val
 }
 
 func (e *Engine) envFor(st *State, fr *FrameSt, old *State) *Env {
@@ -109,6 +110,11 @@ func (env *Env) lookupIdent(name string) (Val, bool) {
 	if g, ok := env.st.ghost[name]; ok {
 		return g, true
 	}
+	if env.callee && env.freeBinds != nil {
+		if p, ok := env.freeBinds[name]; ok {
+			return e.loadThrough(env.st, p), true
+		}
+	}
 	if env.fr != nil && !env.callee && env.fr.freeVars != nil {
 		if p, ok := env.fr.freeVars[name]; ok {
 			return e.loadThrough(env.st, p), true
@@ -131,6 +137,21 @@ func (env *Env) lookupIdent(name string) (Val, bool) {
 	if env.fr != nil && !env.callee {
 		if v, ok := env.localVar(name, false); ok {
 			return v, true
+		}
+	}
+	// variables and parameters of the enclosing inlined frames (closures nested in the function under contract)
+	if env.fr != nil && !env.callee && env.st != nil {
+		for i := len(env.st.frames) - 1; i >= 0; i-- {
+			f := env.st.frames[i]
+			if f == env.fr {
+				continue
+			}
+			if v, ok := env.localVarIn(f, name, true); ok {
+				return v, true
+			}
+			if v, ok := f.params[name]; ok {
+				return v, true
+			}
 		}
 	}
 	// ghosts maintained by the atomic-operation models: arbitrary on paths without such an operation
@@ -717,6 +738,24 @@ func (env *Env) evalCall(n ECall) Val {
 		return term(a, gt)
 	case "callresult0", "callresult1", "callresult2":
 		limitf("callresultN is an identifier, not a function")
+	case "keptArrays":
+		// keptArrays("T"): every backing array of element type T that existed in the old state has its old contents
+		t := e.P.resolveType(typeArgText(n.Args[0]), env.pkg, env.fnForTypes())
+		name, sort := e.arrMapName(t)
+		cur := e.heapGet(env.st, name, sort)
+		old := e.heapGet(env.old, name, sort)
+		if cur == old {
+			return term("true", tBool)
+		}
+		return term(fmt.Sprintf("(forall ((r!k Int)) (! (=> (and (<= 0 r!k) (<= r!k %s)) (= (select %s r!k) (select %s r!k))) :pattern ((select %s r!k))))", env.old.alloc, cur, old, cur), tBool)
+	case "card":
+		// card(s): number of elements of a ghost set (only the facts >= 0, element => positive, zero => empty are known)
+		v := env.eval(n.Args[0])
+		g, ok := v.Typ.(*GhostT)
+		if !ok || g.Kind != "set" {
+			limitf("card() of a non-set")
+		}
+		return term(fmt.Sprintf("(%s %s)", e.declCard(e.sortOf(g.Key)), v.T), tInt)
 	case "allocated":
 		// allocated(p): p refers to an object that exists in the current state (or is nil)
 		v := env.eval(n.Args[0])
